@@ -391,7 +391,7 @@ package p9
 //@   maypanic
 //@ interface File.UnlinkAt
 //@   requires[C07] @dir-write-locked bound(recv) ==> writeLocked(refof(recv))
-//@   requires[C07] @entry-locked bound(recv) ==> globalLocked(refof(recv)) || (has(refof(recv).pathNode.childNodes, name) && held(refof(recv).pathNode.childNodes[name].opMu) == -1)
+//@   requires[C07,C08] @entry-locked bound(recv) ==> globalLocked(refof(recv)) || (has(refof(recv).pathNode.childNodes, name) && held(refof(recv).pathNode.childNodes[name].opMu) == -1)
 //@   requires[C08] bound(recv) ==> !fenced(refof(recv))
 //@   requires[C09] safe(name)
 //@   ghost set $lasterr:error = result0
@@ -1995,7 +1995,7 @@ package p9
 //@   at (*Client).sendRecv requires[C03] @tclunk-carries-the-arguments typeis(arg0, *tclunk) ==> unbox(arg0, *tclunk).fid == c.fid
 //@   ensures[C03] @one-request old(c.closed) == 0 ==> ncalls("(*Client).sendRecv") <= 1
 //@   ensures[C03] @error-is-the-servers ncalls("(*Client).sendRecv") == 1 ==> result == ghost("$lasterr", error)
-//@   at (*pool).Put requires[C10] @fid-released-only-after-confirmed-clunk ghost("$lasterr", error) == nil && ncalls("(*Client).sendRecv") == 1 && arg0 == uint64(c.fid)
+//@   at (*pool).Put requires[C03,C10] @fid-released-only-after-confirmed-clunk ghost("$lasterr", error) == nil && ncalls("(*Client).sendRecv") == 1 && arg0 == uint64(c.fid)
 //@   ensures[C10] @marks-closed c.closed != 0
 //@   ensures[C10] @at-most-one-release ncalls("(*pool).Put") <= 1
 //@ func (*clientFile).Remove
@@ -2005,7 +2005,7 @@ package p9
 //@   at (*Client).sendRecv requires[C03] @tremove-carries-the-arguments typeis(arg0, *tremove) ==> unbox(arg0, *tremove).fid == c.fid
 //@   ensures[C03] @one-request old(c.closed) == 0 ==> ncalls("(*Client).sendRecv") <= 1
 //@   ensures[C03] @error-is-the-servers ncalls("(*Client).sendRecv") == 1 ==> result == ghost("$lasterr", error)
-//@   at (*pool).Put requires[C10] @fid-released-only-after-confirmed-remove ghost("$lasterr", error) == nil && ncalls("(*Client).sendRecv") == 1 && arg0 == uint64(c.fid)
+//@   at (*pool).Put requires[C03,C10] @fid-released-only-after-confirmed-remove ghost("$lasterr", error) == nil && ncalls("(*Client).sendRecv") == 1 && arg0 == uint64(c.fid)
 //@   ensures[C10] @marks-closed c.closed != 0
 //@   ensures[C10] @at-most-one-release ncalls("(*pool).Put") <= 1
 //@ func (*clientFile).readAt
@@ -2057,7 +2057,7 @@ package p9
 //@   ensures[C12] @adopts-the-reply-version result1 == nil ==> result0 != nil && result0.version == ghost("$pv.num", uint32)
 //@   ensures[C12] @only-9P2000L-replies-are-accepted result1 == nil ==> ghost("$pv.ok", bool) && ghost("$pv.base", baseVersion) == version9P2000L
 //@   ensures[C12,C13] @adopts-the-reply-msize result1 == nil ==> result0.messageSize == rversion.MSize
-//@   ensures[C11,C13] @payload-fits-the-adopted-msize result1 == nil ==> result0.payloadSize >= 1 && result0.payloadSize <= result0.messageSize - msgDotLRegistry.largestFixedSize
+//@   ensures[C11,C12,C13] @payload-fits-the-adopted-msize result1 == nil ==> result0.payloadSize >= 1 && result0.payloadSize <= result0.messageSize - msgDotLRegistry.largestFixedSize
 //@   ensures[C12] @failure-yields-no-client result1 != nil ==> result0 == nil
 //@   loop 0 invariant[C12,C13] c != nil && c.messageSize > msgDotLRegistry.largestFixedSize && c.version == highestSupportedVersion
 //@   loop 0 invariant[C12,C13] msgDotLRegistry.largestFixedSize >= 23 && msgDotLRegistry.largestFixedSize < 4096
